@@ -47,13 +47,43 @@ def snap_fgg(g):
     return s
 
 
-def queries(rng, fgg, shape, linear):
+def snap_semiring(sr):
+    """the observable state of a semiring object (an ARGUMENT of the queries, reused by callers): its attributes, tensors by value"""
+    out = []
+    for k_, v_ in sorted(vars(sr).items()):
+        if isinstance(v_, torch.Tensor):
+            out.append((k_, 'tensor', str(v_.dtype), tuple(v_.shape), v_.detach().reshape(-1).tolist()))
+        else:
+            out.append((k_, repr(v_)))
+    z, o = sr.from_int(0), sr.from_int(1)
+    out.append(('from_int', z.reshape(-1).tolist(), o.reshape(-1).tolist()))
+    return out
+
+
+def queries(rng, fgg, shape, linear, SR=None):
     Q = []
+    SR = SR if SR is not None else {name: semgen.semiring_of(name, torch.float64) for name in ('real', 'log', 'viterbi', 'bool')}
     for name in ('real', 'log', 'viterbi', 'bool'):
         for method in ['fixed-point', 'newton'] + (['linear'] if linear else []):
             Q.append((f'sum_product[{name},{method}]', name, lambda g, name=name, method=method:
-                      fggs.sum_product(g, method=method, semiring=semgen.semiring_of(name, torch.float64)).to_dense().tolist()))
-    Q.append(('sum_products', 'real', lambda g: {k.name: v.to_dense().tolist() for k, v in fggs.sum_products(g, semiring=fggs.RealSemiring(dtype=torch.float64)).items()}))
+                      fggs.sum_product(g, method=method, semiring=SR[name]).to_dense().tolist()))
+    Q.append(('sum_products', 'real', lambda g: {k.name: v.to_dense().tolist() for k, v in fggs.sum_products(g, semiring=SR['real']).items()}))
+    # a gradient asked for with a seed tensor the CALLER owns (grad_outputs): the seed is an argument and must not be written to
+    def grad_seed(g, name):
+        ws = [f.weights.physical for f in g.factors.values() if f.weights.physical.requires_grad]
+        if not ws:
+            return 'no-leaves'
+        z = fggs.sum_product(g, method='fixed-point', semiring=SR[name])
+        if not z.physical.requires_grad:
+            return 'constant'
+        seed = torch.full(tuple(z.physical.shape), 1.5, dtype=z.physical.dtype).contiguous()
+        before = seed.clone()
+        gr = torch.autograd.grad(z.physical, ws, grad_outputs=seed, allow_unused=True)
+        if not torch.equal(seed, before) and not (torch.isnan(seed) & torch.isnan(before)).all():
+            return ('seed-mutated', before.reshape(-1).tolist(), seed.reshape(-1).tolist())
+        return [None if x is None else x.reshape(-1).tolist() for x in gr]
+    Q.append(('grad_with_seed[real]', 'real', lambda g: grad_seed(g, 'real')))
+    Q.append(('grad_with_seed[log]', 'log', lambda g: grad_seed(g, 'log')))
     def vit(g):
         try:
             d = fggs.viterbi(g, tuple([0] * g.start.arity), semiring=fggs.ViterbiSemiring(dtype=torch.float64))
@@ -84,7 +114,19 @@ def run_queries(ctx):
     n = 60 if ctx.quick else 400
     for k in range(n):
         recursive = ctx.rng.random() < 0.3
-        if recursive:
+        if k in (1, 2):
+            # corpus: a recursive component of arity-0 nonterminals whose first contribution is structurally zero (a rule that sums over an
+            # EMPTY domain: a 0-dim zero result) and whose value changes afterwards; the same semiring object serves all the queries
+            recursive = True
+            shape = dict(nls=[0], terms=[[0], [], []], nts=[[], []], start=0,
+                         rules=[dict(lhs=0, nodes=[0], ext=[], edges=[['t', 0, [0]]]), dict(lhs=0, nodes=[], ext=[], edges=[['n', 1, []]]),
+                                dict(lhs=1, nodes=[], ext=[], edges=[['t', 1, []]]), dict(lhs=1, nodes=[], ext=[], edges=[['t', 2, []], ['n', 0, []]])],
+                         weights={0: [], 1: [2.0 if k == 1 else 1.0], 2: [0.25]})
+            shape['vweights'] = {0: [], 1: [-1.0], 2: [-2.0]}
+            shape['bweights'] = {0: [], 1: [1.0], 2: [1.0]}
+            shape['_corpus_queries'] = ['sum_product[real,fixed-point]', 'sum_product[real,newton]', 'sum_product[real,fixed-point]',
+                                        'sum_product[log,fixed-point]', 'sum_product[log,fixed-point]', 'sum_products', 'sum_product[viterbi,fixed-point]']
+        elif recursive:
             from .c02 import gen_shape as g2
             shape = g2(ctx.rng)
         else:
@@ -111,14 +153,18 @@ def run_queries(ctx):
                 for el in info['TL']:
                     g.factors[el.name].weights.physical.requires_grad_(True)
             grammars[name] = g
-        Q = queries(ctx.rng, None, shape, lin)
+        SR = {name: semgen.semiring_of(name, torch.float64) for name in ('real', 'log', 'viterbi', 'bool')}   # reused by every query of the sequence
+        Q = queries(ctx.rng, None, shape, lin, SR)
         seq = [ctx.rng.choice(Q) for _ in range(ctx.rng.randint(3, 6))]
+        if shape.get('_corpus_queries'):
+            seq = [q for nm in shape['_corpus_queries'] for q in Q if q[0] == nm]
         case = dict(shape=shape, queries=[q[0] for q in seq])
         ctx.case(case, (repr(shape), tuple(q[0] for q in seq)) if len({q[0] for q in seq}) >= 3 else None, sample_every=10)
         first = {}
         for qname, sem, f in seq:
             g = grammars[sem or 'real']
             before = snap_fgg(g)
+            sr_before = {nm: snap_semiring(x) for nm, x in SR.items()}
             earlier = g.copy()
             ctx.count(qname.split('[')[0])
             with warnings.catch_warnings():
@@ -130,6 +176,12 @@ def run_queries(ctx):
                     res = ('raise', type(e).__name__)
             after = snap_fgg(g)
             ctx.evaluations += 1
+            for nm, x in SR.items():
+                if repr(snap_semiring(x)) != repr(sr_before[nm]):
+                    ctx.fail(f'{qname} changed the state of the {nm} semiring object it was given (a later query with the same semiring sees other values)',
+                             case, snap_semiring(x), sr_before[nm], tags=['mutation', 'semiring-object', qname.split('[')[0]])
+            if isinstance(res, tuple) and res and res[0] == 'seed-mutated':
+                ctx.fail(f'{qname}: the gradient seed tensor passed as grad_outputs was written to', case, res[2], res[1], tags=['mutation', 'grad-seed'])
             if after == before and not (g == earlier):
                 ctx.fail(f'{qname} mutated its argument (the grammar no longer equals the copy taken before the call)', case, None, None,
                          tags=['mutation', 'eq-copy', qname.split('[')[0]])
